@@ -174,7 +174,11 @@ impl<R: DynamicChannelRegion> RegionHandler for DynamicChannelPlan<R> {
             0..=4 => {
                 let base_index = ch_mask_ctl as usize * 2;
                 channel_mask.set_bank(base_index, ch_mask.get_index(0));
-                channel_mask.set_bank(base_index + 1, ch_mask.get_index(1));
+                // ChMaskCntl 4 addresses channels 64..=71 only: the upper byte is RFU and the
+                // 72-channel mask has no bank for it
+                if base_index + 1 < 9 {
+                    channel_mask.set_bank(base_index + 1, ch_mask.get_index(1));
+                }
             }
             5 => {
                 let ch_mask: u16 =
